@@ -168,7 +168,12 @@ def handle (op : String) (args : List String) (impl : String) : Option Verdict :
                | some ss => btcOk resOf ⟨prev, f⟩ ns ss && ss.flatten.all (fun k => k ≥ n || lookup next k == Status.pending)
                | none => false) && keeps
             | .timeout _ => keeps
-            | .outcome _ _ _ => true)
+            | .outcome okk ns f =>
+              -- the outcome is durably recorded under the key the filters read: only the listed proposals move, to
+              -- the outcome's status; all of them when no store call fails (storeStatus_lookup / storeStatus_nofault)
+              let v := if okk then Status.executed else Status.failed
+              (List.range n).all (fun k => lookup next k == lookup prev k || (ns.contains k && lookup next k == v)) &&
+              (f.any id || ns.all (fun k => k ≥ n || lookup next k == v)))
         | none => false
       | _ => false
     return ⟨model, ok, s!"histbtc:ops={min ops.length 6 / 2}:timeout={ops.any fun o => match o with | .timeout _ => true | _ => false}"⟩
@@ -242,6 +247,33 @@ def handle (op : String) (args : List String) (impl : String) : Option Verdict :
         | none => false
       | _ => false
     return ⟨model, ok, s!"submit:{kind}:{outcome}:n={min ns.length 3}"⟩
+  | "lookupseq", [kind, qs] => some <| Id.run do
+    let some qs := (items qs ",").mapM (fun q => match q.splitOn "." with
+      | [s, n, a] => do let s ← s.toNat?; let n ← n.toNat?; let a ← a.toList.head?.bind ansOf; pure (s, n, a)
+      | _ => none) | return bad
+    let showA := fun (a : Ans) => match a with | .notExec => "p" | .exec => "e" | .err => "x"
+    let model := joinOr ((lookupSeq qs).map fun (q, r) => match q with
+      | some q => s!"{q.domain}:{q.nonce}={showA r}"
+      | none => s!"noask={showA r}") ","
+    let steps := items impl ","
+    let ok := steps.length == qs.length &&
+      ((List.range qs.length).zip (qs.zip steps)).all fun (i, ((s, n, a), st)) =>
+        match st.splitOn "=" with
+        | [asked, r] =>
+          match r.toList.head?.bind ansOf with
+          | some r =>
+            let q : Option (Option Query) :=
+              if asked == "noask" then some none
+              else match asked.splitOn ":" with
+                | [d, k] => (match d.toNat?, k.toNat? with | some d, some k => some (some ⟨d, k⟩) | _, _ => none)
+                | _ => none
+            (match q with
+             | some q => decide (PLookupStep (qs.take i) s n a q r)
+             | none => false)
+          | none => false
+        | _ => false
+    let clash := (List.range qs.length).any fun i => (qs.take i).any fun p => p.2.1 == (qs.getD i (0, 0, .err)).2.1 && p.1 != (qs.getD i (0, 0, .err)).1
+    return ⟨model, ok, s!"lookupseq:{kind}:n={min qs.length 4}:sameNonceOtherDomain={clash}"⟩
   | "lookupevm", [src, dst, nonce, ans] => some <| Id.run do
     let some src := src.toNat? | return bad
     let some dst := dst.toNat? | return bad
